@@ -7,7 +7,7 @@ Which handler runs for a given failure is not decided.
 """
 from ..facts import callee, op_place, strip_generics
 from ..flow import Defs, backward_slice, slice_calls
-from .chains_common import chain_snapshots, chain_always_pushed, scope_lookup_shape, concrete_before_templated, own_scope_everywhere, A
+from .chains_common import chain_snapshots, chain_always_pushed, chain_only_pushed, scope_lookup_shape, concrete_before_templated, own_scope_everywhere, A
 from .compiler_common import PX
 
 LEVEL = 'other'
@@ -129,6 +129,7 @@ def r4_observer_snapshots(ctx):
              'registered later in the parent do not run for routes of the nested blueprint).')
     chain_snapshots(ctx, 'C06.R4', 'current_observer_chain', 'observer chain')
     chain_always_pushed(ctx, 'C06.R4', ['ErrorObserver'], 'observer chain')
+    chain_only_pushed(ctx, 'C06.R4')
 
 
 def r5_error_ref_index_agrees(ctx):
@@ -185,7 +186,15 @@ def r5_error_ref_index_agrees(ctx):
     ctx.floor('C06.R5', 'places where pavexc indexes the handler\'s inputs with error_ref_input_index', k, 1)
 
 
+def r6_observers_recorded_per_handler(ctx):
+    from .chains_common import chain_recorded_per_handler
+    ctx.rule('C06.R6', 'P7 provenance (sibling of C05.R5): every write to `handler_id2error_observer_ids` stores a value computed from the observer '
+             'chain the registering function was handed and from nothing kept across handlers.')
+    chain_recorded_per_handler(ctx, 'C06.R6', 'handler_id2error_observer_ids', 'error observer chain')
+
+
 def check(ctx):
+    r6_observers_recorded_per_handler(ctx)
     r1_build_order(ctx)
     r2_observer_splice(ctx)
     r3_lookup(ctx)
